@@ -279,6 +279,13 @@ def check_pruned_lists(players, orig, strategies, reach, after):
                                  "orig": list(o), "got": list(a)})
                 continue
             tot = sum(p for p, _ in live)
+            if tot == 0:
+                # only zero-probability branches survive: there is nothing to rescale (the quotient is undefined); they stay as listed
+                if [p for p, _ in a] != [p for p, _ in live]:
+                    problems.append({"state": s, "kind": "Probabilistic", "problem": "zero-probability survivors were altered", "orig": list(o), "got": list(a)})
+                removed += len(o) - len(a)
+                kept += len(a)
+                continue
             for (p_new, _), (p_old, _) in zip(a, live):
                 want = p_old / tot if len(live) != len(o) else p_old
                 err = abs(p_new - want) / max(abs(want), 1e-300)
